@@ -143,6 +143,7 @@ def _xsd(bits):
         types.append(
             f'<xs:complexType name="{name}"><xs:sequence>{"".join(body[name])}'
             f'<xs:choice maxOccurs="unbounded"><xs:element name="x" type="xs:int"/><xs:sequence><xs:element name="y" type="xs:string"/><xs:element name="z" type="xs:date"/></xs:sequence></xs:choice>'
+            f'<xs:sequence maxOccurs="3"><xs:element name="k" type="xs:string"/><xs:choice><xs:element name="p" type="xs:int"/><xs:element name="q" type="xs:string"/></xs:choice></xs:sequence>'
             f'</xs:sequence><xs:attribute name="u" type="U"/></xs:complexType>'
         )
     return (
@@ -184,7 +185,8 @@ def _generate(bits, style, picks, multi=None):
             # what reaches the rendered output: names, type order, the restrictions dictionary the templates emit
             # (Restrictions.asdict drops the id()-derived choice/group/path keys; `sequence` is emitted after renumbering)
             nt = a.native_types
-            attrs.append((a.name, [t.qname for t in a.types], [t.__name__ for t in converter.sort_types(nt)], sorted(r.asdict(nt).items(), key=repr), a.default, a.fixed))
+            choices = [(c.name, [t.qname for t in c.types], sorted(c.restrictions.asdict(c.native_types).items(), key=repr)) for c in a.choices]  # compound fields: emitted as metadata of each choice
+            attrs.append((a.name, [t.qname for t in a.types], [t.__name__ for t in converter.sort_types(nt)], sorted(r.asdict(nt).items(), key=repr), a.default, a.fixed, choices))
         out.append((cls.qname, cls.package, cls.module, attrs, [c.qname for c in cls.inner]))
     registry = {cls.qname: cls.target_module for cls in container}
     modules = {}
@@ -367,7 +369,7 @@ def plan(tier):
     for style in styles:
         for e0 in (0, 1):
             for e1 in (0, 1):
-                for compound in ((0,) if tier == "quick" else (0, 1)):
+                for compound in (((0, 1) if style == 0 else (0,)) if tier == "quick" else (0, 1)):
                     jobs.append(Job("reproducible", {"style": style, "e0": e0, "e1": e1, "compound": compound}, 600 if tier == "quick" else 3000, 60, note="selector driven"))
     for style in ([0, 1] if tier == "quick" else range(len(STYLES))):
         for compound in (0, 1):
